@@ -270,7 +270,7 @@ def renamings(draw, tokens):
 
 @st.composite
 def cases(draw):
-    typ = draw(st.sampled_from(["rule", "rule", "layer", "labels", "scan"]))
+    typ = draw(st.sampled_from(["rule", "rule", "layer", "labels", "scan", "scan"]))
     if typ == "scan":
         tree = draw(PS.project_trees(root="T0", names=TOKENS[1:8], max_depth=3, with_noise=False))
         # targets outside the scanned root as well: top-level names and dotted names made of tokens that the renamings map too
@@ -282,7 +282,17 @@ def cases(draw):
         tree["level_limit"] = draw(st.sampled_from([None, None, 1, 2]))
         plain = [f for f in tree["pyfiles"] if not f.endswith("__init__.py")]
         if plain and draw(st.integers(0, 2)) == 0:
-            tree["exclude_files"] = [draw(st.sampled_from(plain))]
+            # a file is excluded although another file (in another directory, if there is one) imports it; mostly together
+            # with a level limit, which maps names that are no modules onto their parent packages
+            ex = draw(st.sampled_from(plain))
+            tree["exclude_files"] = [ex]
+            others = [f for f in tree["pyfiles"] if f != ex and f.split("/")[0] != ex.split("/")[0]] or [f for f in tree["pyfiles"] if f != ex]
+            if others:
+                tree["imports"] = tree["imports"] + [[draw(st.sampled_from(others)), PS.dotted(tree["root"], ex)]]
+            if draw(st.integers(0, 3)) > 0:
+                tree["level_limit"] = draw(st.sampled_from([1, 2]))
+            if draw(st.booleans()):
+                tree["module_path"] = ""  # scan the whole root, so that importer and excluded file are both inside
         rho1, rho2 = draw(renamings(TOKENS[:12]))
         return dict(tree, type="scan", rho1=rho1, rho2=rho2)
     tree = draw(RS.trees(root="T0", max_modules=10, siblings=TOKENS[1:7]))
